@@ -525,11 +525,11 @@ func (cs *Contracts) loadFile(path, pkgPath string) error {
 			if !strings.HasPrefix(rest, "\"") {
 				return fmt.Errorf("%s: callsite syntax: callsite \"text\" requires[label] expr", l.where)
 			}
-			j := strings.Index(rest[1:], "\"")
+			j := closingQuote(rest[1:])
 			if j < 0 {
 				return fmt.Errorf("%s: callsite: unterminated text", l.where)
 			}
-			callText := rest[1 : 1+j]
+			callText := strings.ReplaceAll(rest[1:1+j], "\\\"", "\"")
 			rest = strings.TrimSpace(rest[2+j:])
 			kwd := "requires"
 			if l.kw == "at" {
@@ -551,11 +551,11 @@ func (cs *Contracts) loadFile(path, pkgPath string) error {
 		case "capture":
 			// capture "call text prefix" name = resultIndex
 			rest := strings.TrimSpace(l.rest)
-			j := strings.Index(rest[1:], "\"")
+			j := closingQuote(rest[1:])
 			if !strings.HasPrefix(rest, "\"") || j < 0 {
 				return fmt.Errorf("%s: capture syntax: capture \"text\" name = index", l.where)
 			}
-			callText := rest[1 : 1+j]
+			callText := strings.ReplaceAll(rest[1:1+j], "\\\"", "\"")
 			rest = strings.TrimSpace(rest[2+j:])
 			var nm string
 			var idx int
@@ -591,11 +591,11 @@ func (cs *Contracts) loadFile(path, pkgPath string) error {
 			if !strings.HasPrefix(rest, "\"") {
 				return fmt.Errorf("%s: bind syntax: bind \"call text\" name = expr", l.where)
 			}
-			j := strings.Index(rest[1:], "\"")
+			j := closingQuote(rest[1:])
 			if j < 0 {
 				return fmt.Errorf("%s: bind: unterminated call text", l.where)
 			}
-			callText := rest[1 : 1+j]
+			callText := strings.ReplaceAll(rest[1:1+j], "\\\"", "\"")
 			rest = strings.TrimSpace(rest[2+j:])
 			k := strings.Index(rest, "=")
 			if k < 0 {
@@ -779,3 +779,17 @@ func (cs *Contracts) loadFile(path, pkgPath string) error {
 }
 
 var _ = token.NoPos
+
+// closingQuote returns the index of the first double quote in s that is not escaped by a backslash, or -1.
+func closingQuote(s string) int {
+	for i := 0; i < len(s); i++ {
+		if s[i] == '\\' {
+			i++
+			continue
+		}
+		if s[i] == '"' {
+			return i
+		}
+	}
+	return -1
+}
